@@ -4,12 +4,15 @@
   `some` of what the tree-level search returns (so it never reads out of range).
 
   Remark on "entry counts ≤ 255": in the model the count cell is a `Nat` array element and is
-  not truncated, so no bound on the node fan-out is needed for exactness (and for a carrier
-  with an arbitrary `sub` no such bound holds: see the finding in RTree.lean).  What IS needed:
-  item numbers < 2^32, total size < 2^32 (child addresses are 4 bytes), `dec ∘ enc = id`,
-  `|enc x| = 8`, and all leaves at depth `height`.
+  not truncated, so no bound on the node fan-out is needed for exactness here.  The bound
+  itself (1 ≤ count ≤ 16 for every node of a built tree, so the Go `byte(count)` cell and the
+  fixed `[17]` arrays are faithful) is `rBuild_small`/`rBuild_tight` in RTreeSub.lean; it needs
+  `SignExactSub` (for an arbitrary `sub` it is false: see the finding in RTree.lean).  What the
+  byte level needs: item numbers < 2^32, total size < 2^32 (child addresses are 4 bytes),
+  `dec ∘ enc = id`, `|enc x| = 8`, and all leaves at depth `height`.
 -/
 import GeoProofs.Index.RTree
+import GeoProofs.Index.RTreeSub
 import GeoProofs.Index.Codec
 
 namespace Geo
@@ -418,6 +421,22 @@ theorem rtree_search_exact_of_NE [LawfulCarrier α] (boxOf : Nat → GBox α) (q
   refine ⟨visit, hp, fun σ f s => ?_⟩
   rw [rSearchBytes_rBuild enc dec henc hlen boxOf q f nsegs hn s hsz, hv]
 
+/-- **C04, R-tree half.**  For every carrier whose `lt` is a strict weak order and whose `sub`
+    has an exact sign (nothing else about `sub`, nothing about `mul`/`mid`): searching the
+    compressed R-tree of `nsegs` segments reports exactly the segments whose box meets the
+    query — each once (`Perm`), honouring early stop (`foldUntil`), never reading out of range
+    (`some`).  Whatever `chooseLeast`/`splitEntries` decide only affects the tree's shape. -/
+theorem rtree_search_exact [LawfulCarrier α] [SignExactSub α] (boxOf : Nat → GBox α) (q : GBox α)
+    (nsegs : Nat) (hn : nsegs < 2 ^ 32)
+    (henc : ∀ x, dec (enc x) = x) (hlen : ∀ x, (enc x).length = 8)
+    (hsz : ((rBuild boxOf nsegs).compress enc #[1, 0, 0, 0, 0]).size < 2 ^ 32) :
+    ∃ visit : List Nat,
+      List.Perm visit ((List.range nsegs).filter (fun i => (boxOf i).meets q)) ∧
+      ∀ (σ : Type) (f : σ → Nat → σ × Bool) (s : σ),
+        rSearchBytes dec boxOf q f ((rBuild boxOf nsegs).compress enc #[1, 0, 0, 0, 0]) 5 s =
+          some (foldUntil f s visit) :=
+  rtree_search_exact_of_NE enc dec boxOf q nsegs hn henc hlen hsz (rBuild_NE boxOf nsegs)
+
 end
 
 #print axioms rnSearchBytes_of_REnc
@@ -425,5 +444,6 @@ end
 #print axioms rSearchBytes_compress
 #print axioms rSearchBytes_rBuild
 #print axioms rtree_search_exact_of_NE
+#print axioms rtree_search_exact
 
 end Geo
